@@ -202,7 +202,9 @@ struct Encoding<std::array<T, Length>, EnableIfIntegral<T>>
     else if (size != Length * sizeof(T))
       return ErrorStatus::InvalidContainerLength;
 
-    return reader->Read(&(*value)[0], &(*value)[Length]);
+    // std::array::operator[] requires an index below size(): the end of the
+    // range is formed from data() instead of subscripting one past the end.
+    return reader->Read(value->data(), value->data() + Length);
   }
 };
 
